@@ -158,7 +158,7 @@ theorem select_endUnit (f : Frame) (s : Stmt) (h : isEndUnit s.kind = true) : se
 /-- statements that neither open nor close a container and never raise under `dbg` -/
 def neutral (k : SK) : Bool :=
   k == .perm || k == .use || k == .callParen || k == .callBare || k == .other || k == .attrib
-    || k == .dataStmt || k == .contains || k == .block
+    || k == .dataStmt || k == .contains || k == .block || k == .format || k == .arithGoto
 
 theorem step_neutral (cfg : Cfg) (hd : cfg.dbg = true) (f : Frame) (rest : List Frame) (reps : List Rep)
     (s : Stmt) (hn : neutral s.kind = true) (last : Bool) :
